@@ -34,7 +34,7 @@ def main():
     hooks = json.load(open(hooks_file))
     man = {
         "version": 1,
-        "setup_cmd": "cd lean && lake build",
+        "setup_cmd": "./tools/setup.sh",
         "hooks": hooks,
         "engines": [{
             "name": "lean-proof+correspondence",
